@@ -462,12 +462,13 @@ def build_operation(ctx, op, prm=None):
                 "execute": rec.operation(metadata_extractor=ext)(lambda self: run_body())})
             call = lambda: cls().execute()   # noqa: E731
         cache[key] = (holder, cls, call)
+        if prm is not None:
+            # declared once, when the class is defined (as the @recording_params class decorator does)
+            rec.recording_params(RecordingParameters(
+                sampling_rate=float(Fraction(*prm["rate"])), ignore_enforced_sampling=prm["ignore"],
+                skipped=prm["skipped"], copy_data_on_intercepion=prm["copy"]))(cls)
     holder, cls, call = cache[key]
     holder.ctx, holder.op = ctx, op
-    if prm is not None:
-        rec.recording_params(RecordingParameters(
-            sampling_rate=float(Fraction(*prm["rate"])), ignore_enforced_sampling=prm["ignore"],
-            skipped=prm["skipped"], copy_data_on_intercepion=prm["copy"]))(cls)
     return call
 
 
@@ -570,6 +571,11 @@ def run_history(case):
     res = {"runs": out}
     try:
         runs = case["runs"]
+        if case.get("predeclare"):
+            # the service declares all its operation classes (and their recording parameters) before anything runs
+            for run in runs:
+                if run["kind"] == "record":
+                    build_operation(Ctx(rec), run["op"], run["prm"])
         for k, run in enumerate(runs):
             if case.get("probe_fresh") and k == len(runs) - 1:
                 # C09: the same run on a FRESH recorder over the same cassette contents and draw position, first on a
